@@ -226,3 +226,117 @@ Example C01_l1_step_fits_example :
   /\ step_fits p (OSetCol 2 "i" (RScalar (PInt (2 ^ 63)))) = false
   /\ match lstep p (OSetCol 2 "i" (RScalar (PInt (2 ^ 63)))) with LUpd 2 r => inv_b r = false | _ => False end.
 Proof. vm_compute. repeat split; reflexivity. Qed.
+
+(* ---- L1 SIMULATES L0 ALONG WHOLE HISTORIES, over the full 19-operation alphabet (Proofs/CoreSim.v).
+   One step: the complete L1 step lstep_all, run on any pool that satisfies the representation invariant and denotes
+   (map abs) the L0 pool, with the L0 family counter, is sound for Spec.Ops.step -- the per-operation refinement
+   theorems above and of SetColRefine / WriteRefine / ConcatRefine assembled by case analysis on the operation:
+     LNew r       if L0 answers OkNew, its new world is the old one with abs r appended (spec_push: ONew and OConcat
+                  advance the family counter, as Spec.Ops.step does);
+     LUpd i r     if L0 answers OkUnit, its new world is the old one with member i replaced by abs r;
+     LErrUpd i r  L0 raises too, and keeps the same partial effect (col[[i, j, ...]] = v stopped at an out-of-range
+                  index; dm[name] = v / dm[i].name = v whose coercion failed after a missing column was created);
+     LErr         an L1 error is NEVER an L0 success, for any operation; when L0 raises, its world is unchanged; L0 can
+                  answer OutOfModel instead only for the nine derivations and resizes (lerr_exact o = false: OSelect
+                  OMerge OSlice OGetRows OSort OShuffle OSample OSetLength ODelRows), for every other operation L0 raises.
+   The LErr clause rests on new facts of CoreSim.v: under the invariant the id-based derivations succeed exactly when
+   the positional ones do (the three equations below) and the merge of two tables of one family whose left names
+   all exist on the right always succeeds. ---- *)
+From DM Require Import Proofs.CoreSim.
+
+Theorem C01_l1_step_sound : forall (w : world) p o,
+  pool w = map abs p -> winv p ->
+  match lstep_all p (nextfam w) o with
+  | LNew r => snd (step w o) = OkNew -> fst (step w o) = spec_push w o (abs r)
+  | LUpd i r => snd (step w o) = OkUnit -> fst (step w o) = put w i (abs r)
+  | LErrUpd i r => (exists e, snd (step w o) = Err e) /\ fst (step w o) = put w i (abs r)
+  | LErr => match snd (step w o) with
+            | Err _ => fst (step w o) = w
+            | OutOfModel => lerr_exact o = false
+            | OkNew | OkUnit => False
+            end
+  | LSkip => True
+  end.
+Proof. exact lstep_all_sound. Qed.
+Print Assumptions C01_l1_step_sound.
+
+(* the derivations as equations (the conditional theorems C01_selectrowid_refines / slice_refines made total):
+   positional slicing, fetching rows by id, and merging succeed at L1 exactly when / whenever they do at L0 *)
+Theorem C01_l1_slice_is_take : forall t ps,
+  inv_b t = true -> take ps (abs t) = option_map abs (slice_table t ps).
+Proof. exact slice_table_take. Qed.
+Print Assumptions C01_l1_slice_is_take.
+
+Theorem C01_l1_selectrowid_is_take : forall t key ps,
+  inv_b t = true -> (forall k, In k (ia key) -> In k (ia (l_rowid t))) ->
+  all_some (map (fun k => pos_of k (ia (l_rowid t))) (ia key)) = Some ps ->
+  take ps (abs t) = option_map abs (selectrowid t key).
+Proof. exact selectrowid_take. Qed.
+Print Assumptions C01_l1_selectrowid_is_take.
+
+Theorem C01_l1_merge_never_stuck : forall o a b,
+  inv_b a = true -> inv_b b = true ->
+  (forall n i, In (n, i) (l_names a) -> has_name (abs b) n = true) ->
+  exists r, merge_tables o a b = Some r.
+Proof. exact merge_tables_total. Qed.
+Print Assumptions C01_l1_merge_never_stuck.
+
+(* Histories of any length: sim_ok w p ops (executable) says that at every step the L0 outcome and the L1 result have
+   the same shape -- OkNew with LNew, OkUnit with LUpd, an exception with LErrUpd (both keep the partial effect) or
+   with LErr (both keep their state); an L0 OutOfModel or an L1 LSkip ends it.  Then, with the side condition of the
+   L1 invariant theorem (hist_fits), the L1 pool denotes exactly the L0 pool after the whole history ... *)
+Theorem C01_l1_histories_simulate : forall ops (w : world) p,
+  pool w = map abs p -> winv p -> hist_fits_from ops p (nextfam w) = true -> sim_ok w p ops = true ->
+  pool (run ops w) = map abs (lrun_from ops p (nextfam w)).
+Proof. exact lrun_simulates. Qed.
+Print Assumptions C01_l1_histories_simulate.
+
+(* ... and the family counters agree as well: the two runs end in the same world *)
+Theorem C01_l1_histories_simulate_world : forall ops (w : world) p,
+  pool w = map abs p -> winv p -> hist_fits_from ops p (nextfam w) = true -> sim_ok w p ops = true ->
+  run ops w = {| pool := map abs (lrun_from ops p (nextfam w)); nextfam := lfam_from ops p (nextfam w) |}.
+Proof. exact lrun_simulates_world. Qed.
+Print Assumptions C01_l1_histories_simulate_world.
+
+(* from the empty world and the empty pool *)
+Theorem C01_l1_histories_simulate_from_empty : forall ops,
+  hist_fits ops = true -> sim_ok w0 [] ops = true -> pool (run ops w0) = map abs (lrun ops).
+Proof. exact lrun_simulates_from_empty. Qed.
+Print Assumptions C01_l1_histories_simulate_from_empty.
+
+(* non-vacuity: a history over the whole alphabet -- creation, the three column types, assignment to a missing and to
+   an existing name (also refused: a value an IntColumn cannot hold, a sequence of the wrong length after the column was
+   created), cells addressed by int / slice / index list (one stopping at an out-of-range index after a partial
+   write) / selection / Row (also creating the column), selection, merge, slice, row list, sort, shuffle, sample, grow
+   and shrink, row and column deletion, rename (done, trivial, refused twice), concatenation (done, refused), the
+   sorted flag, column-object assignments (alias, copy, slice; refused) and nine more refused operations -- satisfies
+   hist_fits and sim_ok, and (as the theorem says) the L1 pool denotes the L0 pool, EXACTLY (Leibniz equality of the
+   ten tables, not equality up to observation); a step outside the model makes sim_ok false *)
+Definition ex_sim_history : list op :=
+  [ONew 3; OSetColKind 0 "f" KFloat; OSetColKind 0 "i" KInt;
+   OSetCol 0 "a" (RSeq [PInt 3; PStr "x" None None; PNone]);
+   OSetCol 0 "f" (RSeq [PInt 1; PFloat (FFin false 5 (-1)); PStr "2" (Some 2%Z) (Some (FFin false 1 1))]);
+   OSetCol 0 "i" (RSeq [PInt 7; PFloat (FFin false 5 (-1)); PInt (-4)]);
+   OSetCol 0 "i" (RScalar (PStr "x" None None)); OSetCol 0 "q" (RSeq [PInt 1]);
+   OSelect 0 "f" CGe (VInt 2); OSetLength 0 5%Z; OShuffle 0 [4; 0; 3; 1; 2]%nat; OMerge MOr 2 1;
+   OSetCell 2 "a" (ASel 1) (RScalar (PInt 7)); OSetCell 2 "i" (AList [0%Z; 1%Z]) (RScalar (PInt 9));
+   OSetCell 2 "a" (AList [1%Z; 7%Z; 2%Z]) (RScalar (PInt 8));
+   OSetCell 0 "z" (ARow 1) (RScalar (PStr "w" None None)); OSetColFromCol 0 "b" 0 "a";
+   OSetColFromSlice 0 "c" "i" [4%Z; 3%Z; 2%Z; 1%Z; 0%Z]; OSetCell 0 "i" (ASlice (Some 1%Z) None) (RScalar (PInt 5));
+   OSetCell 0 "f" (AInt (-1)) (RScalar (PInt 2)); OSlice 0 (Some 1%Z) (Some 4%Z); OGetRows 0 [3%Z; 0%Z];
+   ORename 0 "a" "aa" true; ORename 0 "aa" "aa" true; ORename 0 "f" "aa" true; ORename 0 "f" "not an identifier" false;
+   OSort 2 "i" [4; 2; 3; 0; 1]%nat; OSample 0 2 [3; 1]%nat; OConcat 0 1; OSetSorted 0 false;
+   ODelCol 0 "f"; ODelCol 0 "f"; OSetLength 0 4%Z; ODelRows 0 [0%Z; (-1)%Z];
+   OSetCell 0 "nope" (AInt 0) (RScalar (PInt 1)); OSetCell 0 "i" (ARow 99) (RScalar (PInt 1));
+   OSetCell 0 "i" (ARow 0) (RScalar (PStr "x" None None));
+   OSetColFromCol 0 "x" 1 "a"; OSetColFromCol 0 "y" 2 "a"; OSetCell 0 "aa" (ASel 8) (RScalar (PInt 1));
+   OSetColFromSlice 0 "c" "i" [0%Z]; OGetRows 0 [0%Z; 99%Z];
+   ONew 2; OSetCol 9 "i" (RScalar (PInt 1)); OConcat 0 9].
+Example C01_l1_simulation_example :
+  hist_fits ex_sim_history = true
+  /\ sim_ok w0 [] ex_sim_history = true
+  /\ List.length (lrun ex_sim_history) = 10%nat
+  /\ pool (run ex_sim_history w0) = map abs (lrun ex_sim_history)
+  /\ nextfam (run ex_sim_history w0) = 3%nat
+  /\ sim_ok w0 [] [ONew 2; OGetRows 0 []] = false.
+Proof. vm_compute. repeat split; reflexivity. Qed.
